@@ -1042,6 +1042,7 @@ pub fn run(tier: &str, deadline: Instant) -> (Vec<Violation>, JournalStats) {
                 deadline: Some(deadline),
                 audit_every: 1000,
                 collect_journals: true,
+                check_livelock: false,
             },
         );
         stats.states += r.states;
